@@ -8,12 +8,16 @@ injections at every position/pair) are printed as ASN.1, compiled one by one
 with the asn1c built from the repository working tree (`asn1c -S <skeletons>
 m.asn1` in an empty directory), and the outcome (exit status, diagnostics,
 files written) is compared with the extracted model (faithfulness, including
-the class of every diagnostic) and with the extracted spec (oracle)."""
+the class of every diagnostic) and with the extracted spec (oracle).
+Further layers: lib/c11_tagmode.py (tagging mode along reference chains, emitted tags), lib/c11_status.py (faults next to a
+recorded WARNING status: coq/Fix/Status.v), lib/c11_param.py (parameterized types: coq/Fix/ParamDistinct.v)."""
 import sys, os, re, shutil, subprocess, json
 from concurrent.futures import ThreadPoolExecutor
 sys.path.insert(0, os.path.join(os.path.dirname(os.path.abspath(__file__)), "..", "lib"))
 from vlib import *
 import c11_tagmode as TM
+import c11_status as ST
+import c11_param as PM
 
 # ---------------------------------------------------------------- AST helpers
 # module = (tagging 'E'|'I'|'A', [def]);  def = (name, tag, ty)
@@ -142,11 +146,16 @@ def comp_txt(c):
 TAGGING = {'E': "EXPLICIT TAGS", 'I': "IMPLICIT TAGS", 'A': "AUTOMATIC TAGS"}
 
 
+def def_lines(m):
+    return ["T%d ::= %s%s" % (n, tag_txt(tg), ty_txt(t)) for (n, tg, t) in m[1]]
+
+
+def tagging_txt(m):
+    return TAGGING[m[0]]
+
+
 def mod_txt(m):
-    lines = ["M DEFINITIONS %s ::= BEGIN" % TAGGING[m[0]]]
-    for (n, tg, t) in m[1]:
-        lines.append("T%d ::= %s%s" % (n, tag_txt(tg), ty_txt(t)))
-    lines.append("END")
+    lines = ["M DEFINITIONS %s ::= BEGIN" % TAGGING[m[0]]] + def_lines(m) + ["END"]
     return "\n".join(lines) + "\n"
 
 
@@ -839,7 +848,8 @@ SPEC2DIAG = {"tags": "tagclash", "ident": "identclash", "enumname": "identclash"
 
 
 def run_asn1c(args):
-    idx, text, asn1c, skel, root = args
+    idx, text, asn1c, skel, root = args[:5]
+    grab = args[5] if len(args) > 5 else None
     d = os.path.join(root, "m%05d" % idx)
     os.makedirs(d)
     open(os.path.join(d, "m.asn1"), "w").write(text)
@@ -850,6 +860,7 @@ def run_asn1c(args):
     except subprocess.TimeoutExpired:
         rc, err = -999, "TIMEOUT"
     files = sorted(f for f in os.listdir(d) if f.endswith(".c") or f.endswith(".h"))
+    grabbed = grab(d, files) if grab else None
     shutil.rmtree(d, ignore_errors=True)
     classes, unknown = set(), []
     for line in err.split("\n"):
@@ -870,8 +881,11 @@ def run_asn1c(args):
         verdict = "ACCEPT"
     else:
         verdict = "REJECT"
-    return {"rc": rc, "verdict": verdict, "classes": sorted(classes), "unknown": unknown, "nfiles": len(files),
-            "ndiag": len(diag), "stderr_tail": "\n".join(diag[-6:])[-800:]}
+    res = {"rc": rc, "verdict": verdict, "classes": sorted(classes), "unknown": unknown, "nfiles": len(files),
+           "ndiag": len(diag), "stderr_tail": "\n".join(diag[-6:])[-800:]}
+    if grab:
+        res["grabbed"] = grabbed
+    return res
 
 
 def classify(r, f, spec):
@@ -918,6 +932,84 @@ def classify(r, f, spec):
     return oracle_bad, known
 
 
+def judge(run, lab, m, ln, o, r, text, replay_cmd=None):
+    """one module: asn1c's outcome r against the extracted model's line o (faithfulness) and the extracted
+    specification (oracle).  Returns (clean, f, fam): clean = asn1c, model and specification agree."""
+    clean = True
+    f = dict(kv.split("=", 1) for kv in o.split())
+    run.case(ln)
+    fam = lab.split(":")[0] if not lab.startswith("coll:") else "coll:" + lab.split(":")[2]
+    if lab.startswith("cof:"):
+        fam = "cof:" + lab.split(":")[2].rsplit("-", 1)[0]
+    elif lab.startswith("enumbig:"):
+        fam = "enumbig:" + ":".join(lab.split(":")[1:3])
+    elif lab[:2] in ("c-", "e-"):
+        fam = "fixed:" + ("compof" if lab[0] == "c" else "enumbig")
+    if "'K'" in repr(m):
+        run.count("has:components-of")
+    if "'X'" in repr(m):
+        run.count("has:extensible-enum")
+    run.count("kind:" + fam)
+    run.count("tagging:" + m[0])
+    run.count("asn1c:" + r["verdict"])
+    rep = {"label": lab, "module_asn1": text, "model_line": ln, "model": o, "asn1c": r,
+           "replay_cmd": replay_cmd or "write module_asn1 to m.asn1 in an empty directory; asn1c -S <skeletons> -fcompound-names m.asn1; echo $?"}
+    # ---- what a run must look like, whatever the verdict
+    if r["verdict"] == "REJECT" and (r["nfiles"] != 0 or r["ndiag"] == 0):
+        run.violation("oracle:reject-writes-no-code-and-diagnoses", dict(rep, what="non-zero exit but files were written or nothing was printed"))
+    if r["verdict"] == "ACCEPT" and r["nfiles"] == 0:
+        run.violation("oracle:accept-writes-code", dict(rep, what="exit 0 but no .c/.h written"))
+    # ---- faithfulness: model vs asn1c
+    mv = f["model"].split(":")[0]
+    mcls = sorted({MODEL2DIAG[x] for x in f["model"].split(":")[1].split(",")}) if mv == "REJECT" else []
+    if mv == "OUTSIDE":
+        clean = False
+        # a COMPONENTS OF whose reference is missing or of the other kind: not modelled (the C keeps the
+        # member and trips over it later); only hand-written cases get here, and only the oracle judges them
+        if f["cof"] not in ("dangling", "kind"):
+            raise RuntimeError("generator produced a module outside the modelled fragment: " + ln)
+        run.count("model:outside-fragment")
+        faithful = True
+        f["spec"] = "ref" if f["cof"] == "dangling" else "OK"
+        f["wf"] = "1" if f["cof"] == "dangling" else "0"
+        f["specc"] = f["spec"]
+        f["cends"] = "1"
+    else:
+        faithful = (mv == r["verdict"]) and (mv != "REJECT" or (mcls == r["classes"] and not r["unknown"]))
+    # ---- oracle: spec (on X.680's expansion) vs asn1c
+    spec_accept = f["spec"] == "OK" and f["wf"] == "1"
+    run.count("spec:" + ("accept" if spec_accept else ("reject" if f["wf"] == "1" else "reject-outside-catalogue")))
+    oracle_bad, known = classify(r, f, f["spec"])
+    if oracle_bad and known is None and f["specc"] != f["spec"]:
+        # asn1c's expansion differs from X.680's on this module (extracted flags cofdup / cofext): the deviation
+        # is the recorded one exactly when the spec evaluated on asn1c's expansion lacks just the clauses
+        # the difference can remove, and asn1c agrees with that (or deviates from it in another recorded way)
+        S = set(f["spec"].split(",")) - {"OK"}
+        Sc = set(f["specc"].split(",")) - {"OK"}
+        may = ({"ident"} if f["cofdup"] == "1" else set()) | ({"tags"} if f["cofext"] == "1" else set())
+        if Sc <= S and (S - Sc) and (S - Sc) <= may:
+            bad2, known2 = classify(r, f, f["specc"])
+            if bad2 is None:
+                known = "C11-compof-ident-unchecked" if "ident" in (S - Sc) else "C11-compof-nested-ext-dropped"
+            elif known2:
+                known = known2
+    if oracle_bad:
+        clean = False
+        run.count("oracle_deviation")
+        if known and any(fd["id"] == known for fd in run.findings):
+            run.known_finding(known, lab)
+            run.count("known:" + known)
+        else:
+            run.violation("oracle:distinct_spec", dict(rep, what=oracle_bad, spec=f["spec"], wf=f["wf"], input=text))
+    if not faithful:
+        clean = False
+        run.count("model_vs_code_diff")
+        run.violation("correspondence:Fix.Tags.check", dict(rep, what="extracted model and asn1c disagree",
+                                                           model_verdict=f["model"], model_classes=mcls),
+                      no_input=(oracle_bad is None or (known is not None)))
+    return clean, f, fam
+
+
 def main(tier):
     run = Run("C11", tier)
     rng = Rng(run.seed)
@@ -960,77 +1052,22 @@ def main(tier):
     with ThreadPoolExecutor(max_workers=NCPU) as ex:
         results = list(ex.map(run_asn1c, [(i, texts[i], asn1c, skel, root) for i in range(len(cases))]))
 
+    base = []
     for (lab, m, ln), o, r, text in zip(cases, mo, results, texts):
-        f = dict(kv.split("=", 1) for kv in o.split())
-        run.case(ln)
-        fam = lab.split(":")[0] if not lab.startswith("coll:") else "coll:" + lab.split(":")[2]
-        if lab.startswith("cof:"):
-            fam = "cof:" + lab.split(":")[2].rsplit("-", 1)[0]
-        elif lab.startswith("enumbig:"):
-            fam = "enumbig:" + ":".join(lab.split(":")[1:3])
-        elif lab[:2] in ("c-", "e-"):
-            fam = "fixed:" + ("compof" if lab[0] == "c" else "enumbig")
-        if "'K'" in repr(m):
-            run.count("has:components-of")
-        if "'X'" in repr(m):
-            run.count("has:extensible-enum")
-        run.count("kind:" + fam)
-        run.count("tagging:" + m[0])
-        run.count("asn1c:" + r["verdict"])
-        rep = {"label": lab, "module_asn1": text, "model_line": ln, "model": o, "asn1c": r,
-               "replay_cmd": "write module_asn1 to m.asn1 in an empty directory; asn1c -S <skeletons> -fcompound-names m.asn1; echo $?"}
-        # ---- what a run must look like, whatever the verdict
-        if r["verdict"] == "REJECT" and (r["nfiles"] != 0 or r["ndiag"] == 0):
-            run.violation("oracle:reject-writes-no-code-and-diagnoses", dict(rep, what="non-zero exit but files were written or nothing was printed"))
-        if r["verdict"] == "ACCEPT" and r["nfiles"] == 0:
-            run.violation("oracle:accept-writes-code", dict(rep, what="exit 0 but no .c/.h written"))
-        # ---- faithfulness: model vs asn1c
-        mv = f["model"].split(":")[0]
-        mcls = sorted({MODEL2DIAG[x] for x in f["model"].split(":")[1].split(",")}) if mv == "REJECT" else []
-        if mv == "OUTSIDE":
-            # a COMPONENTS OF whose reference is missing or of the other kind: not modelled (the C keeps the
-            # member and trips over it later); only hand-written cases get here, and only the oracle judges them
-            if f["cof"] not in ("dangling", "kind"):
-                raise RuntimeError("generator produced a module outside the modelled fragment: " + ln)
-            run.count("model:outside-fragment")
-            faithful = True
-            f["spec"] = "ref" if f["cof"] == "dangling" else "OK"
-            f["wf"] = "1" if f["cof"] == "dangling" else "0"
-            f["specc"] = f["spec"]
-            f["cends"] = "1"
-        else:
-            faithful = (mv == r["verdict"]) and (mv != "REJECT" or (mcls == r["classes"] and not r["unknown"]))
-        # ---- oracle: spec (on X.680's expansion) vs asn1c
-        spec_accept = f["spec"] == "OK" and f["wf"] == "1"
-        run.count("spec:" + ("accept" if spec_accept else ("reject" if f["wf"] == "1" else "reject-outside-catalogue")))
-        oracle_bad, known = classify(r, f, f["spec"])
-        if oracle_bad and known is None and f["specc"] != f["spec"]:
-            # asn1c's expansion differs from X.680's on this module (extracted flags cofdup / cofext): the deviation
-            # is the recorded one exactly when the spec evaluated on asn1c's expansion lacks just the clauses
-            # the difference can remove, and asn1c agrees with that (or deviates from it in another recorded way)
-            S = set(f["spec"].split(",")) - {"OK"}
-            Sc = set(f["specc"].split(",")) - {"OK"}
-            may = ({"ident"} if f["cofdup"] == "1" else set()) | ({"tags"} if f["cofext"] == "1" else set())
-            if Sc <= S and (S - Sc) and (S - Sc) <= may:
-                bad2, known2 = classify(r, f, f["specc"])
-                if bad2 is None:
-                    known = "C11-compof-ident-unchecked" if "ident" in (S - Sc) else "C11-compof-nested-ext-dropped"
-                elif known2:
-                    known = known2
-        if oracle_bad:
-            run.count("oracle_deviation")
-            if known and any(fd["id"] == known for fd in run.findings):
-                run.known_finding(known, lab)
-                run.count("known:" + known)
-            else:
-                run.violation("oracle:distinct_spec", dict(rep, what=oracle_bad, spec=f["spec"], wf=f["wf"], input=text))
-        if not faithful:
-            run.count("model_vs_code_diff")
-            run.violation("correspondence:Fix.Tags.check", dict(rep, what="extracted model and asn1c disagree",
-                                                               model_verdict=f["model"], model_classes=mcls),
-                          no_input=(oracle_bad is None or (known is not None)))
+        clean, f, fam = judge(run, lab, m, ln, o, r, text)
+        if clean and r["verdict"] in ("ACCEPT", "REJECT") and not lab.startswith("tmproj:"):
+            base.append((lab, m, f, r, fam))
     # ---- the tagging-mode layer: verdicts and EMITTED tags along reference chains (lib/c11_tagmode.py)
+    import time
+    t0 = time.time()
     ntm = TM.run_layer(run, Rng(run.seed * 7919 + 11), tier, model, asn1c, skel, scratch(), NCPU, run_lines)
+    t1 = time.time()
+    # ---- wave 4: faults next to a recorded WARNING status (lib/c11_status.py), parameterized types (lib/c11_param.py)
+    nst = ST.run_layer(run, Rng(run.seed * 104729 + 5), tier, model, asn1c, skel, scratch(), NCPU, run_lines, base,
+                       def_lines, tagging_txt, DIAG)
+    t2 = time.time()
+    npm = PM.run_layer(run, Rng(run.seed * 15485863 + 3), tier, model, asn1c, skel, scratch(), NCPU, run_lines, sys.modules[__name__])
+    sys.stderr.write("c11 layers: tagmode %.1fs (%d) status %.1fs (%d) param %.1fs (%d)\n" % (t1 - t0, ntm, t2 - t1, nst, time.time() - t2, npm))
     for i in (0, len(cases) // 3, 2 * len(cases) // 3, len(cases) - 1):
         run.sample({"label": cases[i][0], "asn1": texts[i], "model": mo[i], "asn1c": {k: results[i][k] for k in ("rc", "verdict", "classes", "nfiles")}})
     tb = ["Coq 8.16.1 kernel + vm_compute (refuted witnesses only)",
@@ -1044,9 +1081,11 @@ def main(tier):
                       extra_cov={"theorems": names,
                                  "rule": "fixed witnesses + spec-valid random bases (with COMPONENTS OF, large and extensible enumerations) + single-fault injections (collision kinds x every component pair x plain/auto/manual/run variants, duplicate identifier at every pair, duplicate enumeration name/value at every pair, dangling reference at every component/alias/element; COMPONENTS OF of six auxiliary earlier types x every SEQUENCE/SET site x every position x E/I/A x fault (inherited identifier, inherited tag, universal tag, automatic tagging over inherited tags, twice, additions not copied, nested extension, inside additions); enumerations over 15 value sets around 2^31/2^32/2^63/2^64/2^127 x valid/duplicate at every pair x root/after the marker), round-robin over the catalogue up to the tier's budget; one asn1c process per module",
                                  "tagging_mode_layer": "reference chains of 0..4 (random: ..6) definitions x terminal CHOICE/ANY/INTEGER/SEQUENCE x one tag at every hop in every mode, two tags at every pair of hops, random placements x use as SEQUENCE/SET/CHOICE component (root and additions), SEQUENCE OF/SET OF element, under [n] IMPLICIT/[n] EXPLICIT/[n]/nothing x EXPLICIT/IMPLICIT/AUTOMATIC TAGS; verdict per use and, for accepted modules, member tag/tag_mode and tags/all_tags vectors read from the generated .c files, against an independent X.680 computation and the extracted Fix/TagMode.v",
-                                 "traces_validated_against_impl": len(cases) + ntm},
+                                 "status_layer": "faults and valid controls of the single-module corpus (round-robin over the fault families) x 16 environments that make asn1c record a warning status elsewhere (unknown encoding reference, same-named module with another OID, clash with a standard-module value; same module / second module before or after / second file before or after; controls without warning) x with and without -Werror; exit status, files written, FATAL lines against the property text and against the extracted status fold (coq/Fix/Status.v)",
+                                 "parameterized_layer": "template kind CHOICE/SET/SEQUENCE x shape (parameter first/last/nested/untagged/two parameters/OF element; template before or after its uses) x relation between the inline actual parameters of 2-3 specializations (equal, prefix, suffix, infix, permutation, differing only in tags/identifiers/types/flags/constraints, one level deeper, enumerations, primitive, named, nested instantiation) x order 12/21/121/212 x use at top level or as SEQUENCE member x E/I/A; verdict against the extracted spec on the module obtained by substituting every reference in Python; clone names P1_<line>P<k> in the generated headers against the number of different actual parameter lists and against the extracted specialization table (coq/Fix/ParamDistinct.v)",
+                                 "traces_validated_against_impl": len(cases) + ntm + nst + npm},
                       assumptions=["model of libasn1fix is hand-written; tied by differential runs only on the generated modules",
-                                   "single-module specifications of the algebra in notes/design/C11.md; no constraints, parameterization, IMPORTS, ANY, SET OF; COMPONENTS OF only of earlier definitions; extensible ENUMERATED only fully valued",
+                                   "specifications of the algebra in notes/design/C11.md; no IMPORTS, no constraints except inside actual parameters, ANY and SET OF only in the tagging-mode layer; several modules / files only in the status layer; parameterized types: one template with type parameters, substitution done in Python; COMPONENTS OF only of earlier definitions; extensible ENUMERATED only fully valued",
                                    "diagnostic classes are recognised by message text"])
 
 
